@@ -22,7 +22,7 @@ import ast, inspect, textwrap
 import pysrc
 from pysrc import Tr, Fn, World, Untranslatable, _methods
 
-LEAN_TYPE = dict(pysrc.LEAN_TYPE)
+LEAN_TYPE = pysrc.LEAN_TYPE
 LEAN_TYPE.update({"HV": "List Int", "Vec": "List Int", "Tensor": "List (List Int)", "Slice": "Nat × Nat",
                   "Shape": "Nat × Nat", "Mask": "Mask", "ObsObj": "PyRt.ObsObj", "RawState": "PyRt.RawState",
                   "HostList": "List (Addr × List Int)", "NumMap": "List (Addr × Nat)", "Idx": "HostVector.Idx",
